@@ -751,14 +751,21 @@ func (pe *pollerEnv) poll(target host.Host, what string) {
 	pctx, cancel := context.WithTimeout(ctx, 120*time.Second)
 	defer cancel()
 	res, err := pe.poller.Poll(pctx, target.ID())
+	reqs := ""
+	if strings.HasPrefix(what, "script ") {
+		// how many requests the scripted peer received during this poll
+		byz.mu.Lock()
+		reqs = fmt.Sprintf(" reqs=%d", byz.n)
+		byz.mu.Unlock()
+	}
 	status, recv, nw, internal := "miss", uint64(0), uint64(0), false
 	if err != nil || res == nil {
 		internal = true
 	} else {
 		status, recv, nw = statusText(res.Status), res.ReceivedCertificates, res.NewCertificates
 	}
-	out.Line("poll %d %s => %s %d %d %v %d %s %s", pe.pid, what, status, recv, nw, internal,
-		pe.poller.NextInstance, g.TableText(pe.poller.PowerTable), pe.storeCerts())
+	out.Line("poll %d %s => %s %d %d %v %d %s %s%s", pe.pid, what, status, recv, nw, internal,
+		pe.poller.NextInstance, g.TableText(pe.poller.PowerTable), pe.storeCerts(), reqs)
 }
 
 func (pe *pollerEnv) next() int { return int(pe.poller.NextInstance - pe.hist.First) }
@@ -791,9 +798,24 @@ func byzPollCases(h, other *certgen.History) {
 				}
 			}
 		}
+		if rng.Chance(1, 6) && kk < len(h.Certs) {
+			// a peer that hands over some genuine certificates once and from then on only advertises more without
+			// sending any ("mis-advertised pending instance"), for as long as it is asked
+			j := 1 + rng.Intn(min(3, len(h.Certs)-kk))
+			far := h.First + uint64(kk+j+1+rng.Intn(5))
+			r := bResp{pending: far}
+			for _, c := range h.Certs[kk : kk+j] {
+				r.items = append(r.items, bItem{kind: 'c', cert: c})
+			}
+			script = []bResp{r}
+			for i, n := 0, 2+rng.Intn(7); i < n; i++ {
+				script = append(script, bResp{pending: far})
+			}
+			tags = []string{"spin"}
+		}
 		byz.set(script)
 		out.Line("# byzpoll %s %s", strings.Join(tags, "+"), kinds(script))
-		if rng.Chance(1, 3) && kk < len(h.Certs) {
+		if rng.Chance(1, 3) && kk < len(h.Certs) && tags[0] != "spin" {
 			// while the request is in flight the next certificates arrive through another channel (GPBFT). The
 			// peer answers with genuine certificates here: a different validly signed certificate for an instance
 			// that GPBFT itself finalized cannot exist below 1/3 faulty power.
